@@ -141,3 +141,98 @@ def record_keys(model, method_names):
                     if isinstance(k, ast.Constant) and isinstance(k.value, str):
                         keys.add((k.value,))
     return keys
+
+
+# ---------------------------------------------------------------------------------------------------------------------
+def _stmt_of(node):
+    from rules import common
+    return common.stmt_of(node)
+
+
+def elementwise_collectors(chk, rule, ci, methods, floor):
+    """Handlers that turn a list of clause elements into a list of records: the accumulator is a list created empty
+    before the loop, every iteration that does not raise adds to it (no path round the loop body avoids the add), and
+    the accumulator itself is what the handler returns - so the output has one entry per input element, in order,
+    duplicates included."""
+    from vt.cfg import CFG
+    from vt.runner import where
+    chk.doc(rule, 'element-wise collectors (%s): accumulator = [] before the loop; on every non-raising path through '
+                  'the loop body one element is appended; the accumulator is returned as it is (no keyed container, '
+                  'no set(), no de-duplication)' % ', '.join(methods))
+    n = 0
+    for mname in methods:
+        o, fn = ci.find_method(mname)
+        if fn is None:
+            chk.ob(rule, '%s/present' % mname, False, ci.mod.rel, 'handler %s is missing' % mname)
+            continue
+        loops = [s for s in fn.body if isinstance(s, ast.For)]
+        rets = [s for s in walk_no_nested(fn) if isinstance(s, ast.Return) and s.value is not None]
+        if not loops or not rets:
+            chk.ob(rule, '%s/shape' % mname, False, where(o.mod, fn), 'no top-level loop or no returned value')
+            continue
+        loop = loops[0]
+        # the accumulator: a name that is returned (bare, or as a member of a returned tuple) and grows inside the loop
+        grown = {}
+        for s in ast.walk(loop):
+            if isinstance(s, ast.Call) and isinstance(s.func, ast.Attribute) and s.func.attr in ('append', 'extend') \
+                    and isinstance(s.func.value, ast.Name):
+                grown.setdefault(s.func.value.id, []).append(_stmt_of(s))
+            if isinstance(s, ast.AugAssign) and isinstance(s.op, ast.Add) and isinstance(s.target, ast.Name):
+                grown.setdefault(s.target.id, []).append(s)
+        returned = []
+        for r in rets:
+            v = r.value
+            els = v.elts if isinstance(v, ast.Tuple) else (v.values if isinstance(v, ast.Dict) else [v])
+            for e in els:
+                if isinstance(e, ast.Name) and e.id not in returned:
+                    returned.append(e.id)
+        acc = [x for x in returned if x in grown]   # the first one is the per-element list
+        ok = len(acc) >= 1
+        chk.ob(rule, '%s/accumulator-returned' % mname, ok, where(o.mod, fn),
+               'the list filled by the loop (%s) must be what the handler returns (returns: %s)' % (
+                   sorted(grown), [norm(r.value)[:50] for r in rets]))
+        if not ok:
+            continue
+        a = acc[0]
+        n += 1
+        inits, init_vals = [], []
+        for st in fn.body[:fn.body.index(loop)]:
+            if isinstance(st, ast.Assign) and len(st.targets) == 1:
+                t, v = st.targets[0], st.value
+                if norm(t) == a:
+                    inits.append(st)
+                    init_vals.append(v)
+                elif isinstance(t, ast.Tuple) and isinstance(v, ast.Tuple) and len(t.elts) == len(v.elts):
+                    for te, ve in zip(t.elts, v.elts):
+                        if norm(te) == a:
+                            inits.append(st)
+                            init_vals.append(ve)
+        ok = len(inits) == 1 and isinstance(init_vals[0], ast.List) and not init_vals[0].elts
+        chk.ob(rule, '%s/accumulator-is-empty-list' % mname, ok, where(o.mod, inits[0] if inits else fn),
+               '%s starts as %s' % (a, norm(init_vals[0]) if init_vals else 'nothing'))
+        others = [s for s in ast.walk(fn) if isinstance(s, (ast.Assign, ast.AugAssign, ast.Delete)) and s not in inits
+                  and s not in grown[a] and any(isinstance(t, (ast.Name, ast.Subscript)) and norm(t).split('[')[0] == a
+                                                for t in (s.targets if not isinstance(s, ast.AugAssign) else [s.target])
+                                                if not isinstance(t, ast.Tuple))]
+        chk.ob(rule, '%s/accumulator-only-grows' % mname, not others, where(o.mod, others[0] if others else fn),
+               '%s is also written by %s' % (a, [norm(s)[:60] for s in others]))
+        cfg = CFG(fn)
+        it = cfg.node_of(loop)
+        adds = set(cfg.node_of(s) for s in grown[a] if cfg.node_of(s) is not None)
+        seen = cfg.reach_from_edges([(it, 'T')], avoid=adds)
+        skipping = it in seen
+        early = [x for x in ast.walk(loop) if isinstance(x, ast.Return)]
+        stack = [(c, False) for c in loop.body]
+        while stack:
+            x, inner = stack.pop()
+            if isinstance(x, ast.Break) and not inner:
+                early.append(x)
+            for c in ast.iter_child_nodes(x):
+                stack.append((c, inner or isinstance(x, (ast.For, ast.While))))
+        chk.ob(rule, '%s/loop-runs-to-exhaustion' % mname, not early, where(o.mod, early[0] if early else loop),
+               'the loop can be left before the last element (%s): later elements are dropped' % (
+                   norm(early[0]) if early else ''))
+        chk.ob(rule, '%s/every-element-added' % mname, not skipping, where(o.mod, loop),
+               'an iteration can finish without adding to %s: the element is dropped from the output' % a)
+    chk.floor(rule, floor, 'collector handlers')
+
